@@ -303,6 +303,67 @@ def rule_free_connect(P):
     return r
 
 
+def rule_connect_once(P):
+    r = Rule("C19-connect-once", "K6", "bufferevent_socket_connect: a failure returned to the caller is not also reported through the event callback; the refused case reports one deferred ERROR", floor=12)
+    f = P.fn("bufferevent_socket_connect")
+    bev = ["var", f.params[0][0], "param"]
+    nb = 0
+    for havefd in (0, 1):
+        for sa in (0, 1):
+            for sockok in (0, 1):
+                for rconn in (-1, 0, 1, 2):
+                    for en in (0, -1):
+                        env = {bev[1]: 1, f.params[1][0]: sa, f.params[2][0]: 16, "bufev_p": 1,
+                               nkey(["fld", ["var", f.params[1][0], "param"], "sockaddr.sa_family", "->"]): 2}
+                        def hook(el, e_):
+                            n = callee_name(el.e)
+                            if n == "bufferevent_getfd":
+                                return 7 if havefd else -1
+                            if n == "evutil_socket_":
+                                return 8 if sockok else -1
+                            if n == "evutil_socket_connect_":
+                                return rconn
+                            if n == "be_socket_enable":
+                                return en
+                            if n == "bufferevent_run_eventcb_":
+                                try:
+                                    e_["#rep"] = e_.get("#rep", ()) + ((evalx(normx(el.e[2][1]), e_, P), evalx(normx(el.e[2][2]), e_, P)),)
+                                except EvalError:
+                                    e_["#rep"] = e_.get("#rep", ()) + (("?", "?"),)
+                                return 0
+                            if n == "bufferevent_trigger_nolock_":
+                                e_["#trig"] = e_.get("#trig", 0) + 1
+                                return 0
+                            if n == "evutil_closesocket":
+                                e_["#closed"] = e_.get("#closed", 0) + 1
+                                return 0
+                            return None
+                        for o in run_all(f, (f.entry, 0), env, lambda el: False, P, hook, max_steps=900):
+                            if o.kind == "exit" and o.why == "noreturn":
+                                continue
+                            if o.kind != "ret":
+                                r.brk("bufferevent_socket_connect: %s %s" % (o.kind, o.why))
+                                return r
+                            try:
+                                ret = evalx(normx(o.at.e[1]), o.env, P)
+                            except EvalError:
+                                ret = None
+                            rep = list(o.env.get("#rep", ()))
+                            r.inst((havefd, sa, sockok, rconn, en), {"has_fd": havefd, "sockaddr": sa, "socket_ok": sockok, "connect_result": rconn, "enable_result": en, "ret": ret, "reports": rep, "closed": o.env.get("#closed", 0)})
+                            msg = None
+                            if ret is not None and ret < 0 and rep:
+                                msg = "returns %d to the caller and also reports %s through the event callback (the caller reports the failure itself: ERROR would be delivered twice)" % (ret, rep)
+                            if ret == 0 and sa and rconn == 2 and (not rep or rep != [(0x20, 4)]):
+                                msg = "an immediately refused connect must report exactly one deferred BEV_EVENT_ERROR, got %s" % rep
+                            if len(rep) > 1:
+                                msg = "reports %d events for one connect attempt: %s" % (len(rep), rep)
+                            if msg and nb < 3:
+                                nb += 1
+                                r.bad("K6:bufferevent_socket_connect:error-reported-twice", "%s:%d" % (f.file, f.line), f.name,
+                                      "fd present=%d sockaddr=%d socket ok=%d connect result=%d: %s" % (havefd, sa, sockok, rconn, msg))
+    return r
+
+
 def run(ctx, config):
     P = ctx.prog(UNITS, config)
-    return [rule_runners(P), rule_fresh(P), rule_run(P), rule_free_connect(P)]
+    return [rule_runners(P), rule_fresh(P), rule_run(P), rule_free_connect(P), rule_connect_once(P)]
